@@ -414,7 +414,8 @@ class PeakLoadWindow(Strategy):
             bat_info[b_id] = {"soc": battery.soc, "power": 0}
             if gc.window:
                 # charge when below peak load, discharge when above
-                power = sum(gc_loads.values()) - self.peak_power[gc_id]
+                # peak power must not exceed the currently valid limit of the grid connector
+                power = sum(gc_loads.values()) - min(self.peak_power[gc_id], gc.cur_max_power)
                 if power >= battery.min_charging_power:
                     # current load above peak power within window: discharge
                     bat_info[b_id]["power"] = -power
